@@ -160,7 +160,7 @@ class FeatureIDEReader(TextToModel):
     def _parse_rule(self, rule: Element) -> AST:
         """Return the representation of the constraint (rule) in the AST syntax."""
         if rule.tag == FeatureIDEReader.TAG_VAR:
-            node = Node(rule.text)
+            node = Node(rule.text if rule.text is not None else '')  # <var/>: the empty name
         elif rule.tag == FeatureIDEReader.TAG_NOT:
             node = Node(ASTOperation.NOT)
             node.left = self._parse_rule(rule[0]).root
